@@ -78,7 +78,8 @@ func init() {
 			r.Require(lc + ":huge-input")
 			extra := []int{1 << 24, 2 << 24, 1<<24 + 1}
 			if r.Thorough() && r.Config == "asm" && strconv.IntSize == 64 {
-				extra = append(extra, 1<<32, 1<<32+1<<24)
+				g := 1 << 30 // (4*g does not fit an int on 32-bit targets: computed, not a constant)
+				extra = append(extra, 4*g, 4*g+1<<24)
 			}
 			r.Seq(lc+"/huge-inputs", len(extra), func(w *mon.W, i int) {
 				d, _ := keyValue(w.Rng)
